@@ -78,9 +78,14 @@ theorem range_at_agree (F : FileSem) (s : State) (n : Nat) :
       | none => unknownSheet := by
   simp only [step]; cases F.sheets[n]? <;> rfl
 
-/-- under any option, the entries of `worksheets()` are the per-name `worksheet_range` results in workbook order -/
-theorem worksheets_agree (F : FileSem) (s : State) :
-    (step F s .worksheets).2 = "&".intercalate (F.sheets.map fun n => n ++ "=" ++ (step F s (.range n)).2) := rfl
+/-- under the default option (for the lazy readers: under any option), the entries of `worksheets()` are the
+    per-name `worksheet_range` results, in the reader's sheet order -/
+theorem worksheets_agree (F : FileSem) (s : State) (h : s.hdr = .firstNonEmpty ∨ F.eager = false) :
+    (step F s .worksheets).2 = "&".intercalate (F.sheets.map fun n => n ++ "=" ++ (step F s (.range n)).2) := by
+  simp only [step, worksheetsOut]
+  rcases h with h | h
+  · rw [h]; simp
+  · rw [h]; simp
 
 /-- reads commute: swapping two adjacent non-setter calls swaps their results and changes nothing else -/
 def isRead : Op → Bool
@@ -104,7 +109,7 @@ theorem auto_equals_format_reader (F : FileSem) (k : Kind) (s : State) (op : Op)
 
 /-! non-vacuity: a concrete file and history -/
 def demoFile : FileSem :=
-  { sheets := ["A", "B"], rangeRef := fun n h => n ++ (match h with | .firstNonEmpty => "@d" | .row k => "@" ++ toString k),
+  { eager := false, sheets := ["A", "B"], rangeRef := fun n h => n ++ (match h with | .firstNonEmpty => "@d" | .row k => "@" ++ toString k),
     toOwned := fun o => "own(" ++ o ++ ")", formula := fun n => "f" ++ n, mergeCells := fun _ => "m",
     mergedAll := "M", mergedBySheet := fun n => "M" ++ n, tableNames := "T",
     tableMeta := fun n => if n = "t1" then .ok ("A", "w") else .error "err:TableNotFound",
